@@ -1,29 +1,30 @@
 #!/bin/bash
-# usage: seedcheck.sh <seed-id> <property> [worktree]   (seed-id e.g. C04 or C04b)
-# 1. confirms the seeded change in its scratch worktree: builds, passes the
-#    pinned suite (except baseline-failing TestIOZero), demo fails with / passes without
+# usage: seedcheck.sh <seed-id> <property> [worktree]
+# 1. confirms the seeded change (/tmp/seed-<id>/patch.diff + demo test) in its
+#    scratch worktree: builds, passes the pinned suite (except baseline-failing
+#    TestIOZero), demo fails with the patch / passes without
 # 2. stores it under /verif/seeded/<seed-id>/
 # 3. applies it to /repo, runs the property's quick check, reverts
 set -u
 id=$1; prop=$2; wt=${3:-/tmp/wt-$id}; sd=/tmp/seed-$id
 export GOFLAGS=-mod=mod GOPROXY=off GOSUMDB=off GOTOOLCHAIN=local
-demo=$(cd $wt && git status --porcelain | grep '^??' | grep '_test.go' | awk '{print $2}' | head -1)
+cd $wt || exit 1
+git checkout -q -- . 
+demo=$(git status --porcelain | grep '^??' | grep '_test.go' | awk '{print $2}' | head -1)
 pkgdir=$(dirname "$demo")
 echo "== demo test: $demo (package ./$pkgdir)"
-cd $wt
+withoutp=$(go test -vet=off -count=1 -run 'Seed|seed' ./$pkgdir 2>&1 | tail -3 | grep -c -E '^ok')
+git apply $sd/patch.diff || { echo "PATCH DOES NOT APPLY IN WORKTREE"; exit 1; }
 go build ./... || { echo "BUILD FAILS"; exit 1; }
 others=$(go test -vet=off -count=1 ./... 2>&1 | grep -E '^--- FAIL' | grep -v -E 'TestIOZero|Seed|seed' | head -5)
 [ -n "$others" ] && { echo "EXISTING TESTS FAIL WITH PATCH: $others"; }
 withp=$(go test -vet=off -count=1 -run 'Seed|seed' ./$pkgdir 2>&1 | tail -3 | grep -c -E '^(FAIL|panic)')
-git stash push -q -- $(git diff --name-only) 
-withoutp=$(go test -vet=off -count=1 -run 'Seed|seed' ./$pkgdir 2>&1 | tail -3 | grep -c -E '^ok')
-git stash pop -q
-echo "== demo fails with patch: $withp ; passes without: $withoutp"
+echo "== demo fails with patch: $withp ; passes without: $withoutp ; other failing tests: ${others:-none}"
 mkdir -p /verif/seeded/$id
-git diff > /verif/seeded/$id/patch.diff
+cp $sd/patch.diff /verif/seeded/$id/patch.diff
 cp $wt/$demo /verif/seeded/$id/ 2>/dev/null
-for f in $sd/*; do case "$f" in *.sqlite|*.py|*.json) cp "$f" /verif/seeded/$id/;; esac; done
+for f in $sd/*; do case "$f" in *.sqlite|*.sqlite-journal|*.py|*meta.json) cp "$f" /verif/seeded/$id/;; esac; done
 cd /repo && git apply /verif/seeded/$id/patch.diff || { echo "PATCH DOES NOT APPLY TO /repo"; exit 1; }
-cd /verif && timeout 1500 bin/vcheck run $prop -j 16 2>&1 | grep -E "^VIOLATION|^INCONCLUSIVE|^KNOWN|exit=" | cut -c1-220 | head -8
+cd /verif && timeout 1500 bin/vcheck run $prop -j 16 2>&1 | grep -E "^VIOLATION|^INCONCLUSIVE|^KNOWN|exit=" | cut -c1-220 | head -6
 git -C /repo checkout -- .
 git -C /repo status --short | head -3
